@@ -67,7 +67,13 @@ pub fn gen_base(w: &World, r: &mut Rng, mix: Mix, proto: Option<Proto>) -> Base 
     let total = mix.gen + mix.prim + mix.envelope;
     let x = r.below(total);
     if x < mix.gen {
-        let g = r.pick(&w.gens);
+        // the runtime's only hand-written Message decoder gets a fixed share, and long messages
+        let rt_exc = r.chance(1, 25);
+        let g = if rt_exc { w.gens.iter().find(|g| g.name == "rt::ApplicationException").unwrap_or(&w.gens[0]) } else { r.pick(&w.gens) };
+        let mut knobs = knobs;
+        if rt_exc {
+            knobs.max_str = *r.pick(&[40usize, 1100, 2100, 5000]);
+        }
         let def = w.schema.get(g.schema).expect("schema for gen type").clone();
         let ev = Evolve::swarm(r);
         let tv = if is_recursive(&w.schema, def.name) && r.chance(1, 3) {
@@ -370,23 +376,27 @@ pub fn unit_c07(w: &World, seed: u64, unit: u64, tier: Tier) -> Vec<Case> {
         // depth band: nest 1..80
         let n = if tier == Tier::Thorough { 12 } else { 5 };
         for _ in 0..n {
-            let d = match r.below(4) {
+            let d = match r.below(5) {
                 0 => r.range(55, 60),
                 1 => r.range(70, 80),
+                // exactly at the documented limit of 64 levels, and just beyond it
+                2 => r.range(62, 67),
                 _ => r.range(1, 80),
             } as usize;
-            if (61..70).contains(&d) {
-                continue;
-            }
-            let tv = match r.below(5) {
+            let tv = match r.below(6) {
                 0 | 1 => struct_chain(d, r.range(1, 20) as i16),
                 2 => container_chain(&mut r, d),
                 3 => wide_run(&mut r),
+                4 => leaf_chain(&mut r, d),
                 _ => rich_chain(&mut r, d.saturating_sub(3)),
             };
             // the depth is taken from the value (rich chains and wide runs choose their own)
+            // The documented limit is 64 levels. Values of at most 64 levels (scalars counted as a level)
+            // must be skipped; values with more than 64 nested containers must be refused. Whether a
+            // scalar below 64 containers is a 65th level is read differently by the skippers (the recursive
+            // ones count it, the unchecked reader's bulk paths do not): not judged.
             let d = tv.depth();
-            if (61..70).contains(&d) {
+            if d > 64 && tv.cdepth() <= 64 {
                 continue;
             }
             let e = encode_value(proto, &tv, Style::default());
@@ -394,7 +404,7 @@ pub fn unit_c07(w: &World, seed: u64, unit: u64, tier: Tier) -> Vec<Case> {
             let mut vb = e.out.clone();
             vb.extend_from_slice(&trailer);
             let base = Base { proto, level: Level::Skip(tv.ttype()), bytes: e.out, spans: vec![], note: format!("nest{}", d), tv: None, conforming: true };
-            let refused = d >= 70;
+            let refused = d > 64;
             for (i, s) in [Schedule::whole(), Schedule::random(&mut r, vb.len(), ppct)].into_iter().enumerate() {
                 let mut c = mk_case(prop, &base, unit);
                 c.bytes = vb.clone();
@@ -573,7 +583,35 @@ pub fn enumerate_faults(r: &mut Rng, b: &Base, tier: Tier, want_all_truncations:
                     });
                 }
             }
-            SpanKind::Payload | SpanKind::Stop => {}
+            SpanKind::Payload => {
+                // content faults inside a long string / binary payload: a UTF-8 continuation byte, a lead
+                // byte and 0xFF at the power-of-two offsets (and their neighbours) where a decoder may cut,
+                // cap or chunk what it was sent
+                let plen = sp.end - sp.start;
+                if plen > 48 {
+                    let mut offs: Vec<usize> = vec![];
+                    let mut p = 64usize;
+                    while p <= plen && p <= 16384 {
+                        offs.extend_from_slice(&[p - 1, p]);
+                        p *= 2;
+                    }
+                    offs.push(plen - 1);
+                    for o in offs {
+                        if o >= plen {
+                            continue;
+                        }
+                        for val in [0x80u8, 0xE4] {
+                            if b.bytes[sp.start + o] == val {
+                                continue;
+                            }
+                            let mut x = b.bytes.clone();
+                            x[sp.start + o] = val;
+                            v.push(Faulted { bytes: x, desc: format!("payload@{}+{}={:#x}", sp.start, o, val), kind: "payload_content", strict_prefix: false });
+                        }
+                    }
+                }
+            }
+            SpanKind::Stop => {}
         }
         if sp.kind == SpanKind::FieldHdr && b.proto == Proto::Compact && !is_pb {
             // the delta nibble of a short-form field header: other ids, a repeated id, the long form (0)
@@ -833,6 +871,7 @@ fn pb_codec_value(r: &mut Rng, w: &World, codec: &str) -> (Vec<u8>, Vec<Span>, u
     use crate::pwire::*;
     let mut e = PEnc::new();
     let knobs = PKnobs::swarm(r);
+    e.pad = knobs.pad;
     let wt: u8;
     match codec {
         "bool" | "int32" | "int64" | "uint32" | "uint64" | "sint32" | "sint64" | "enum_i32" | "varint" | "key" | "length_delimiter" => {
@@ -958,10 +997,12 @@ pub fn unit_c10(w: &World, seed: u64, unit: u64, tier: Tier) -> Vec<Case> {
     };
     if flavour < 2 {
         // nesting: messages, repeated messages, map entries, groups (known and unknown)
-        let depths: Vec<usize> = if tier == Tier::Thorough { vec![1, 50, 90, 99, 100, 101, 110, 150, 300, 1000, 20_000] } else { vec![50, 90, 110, 300, 5_000] };
+        let depths: Vec<usize> = if tier == Tier::Thorough { vec![1, 50, 90, 99, 100, 101, 110, 150, 300, 1000, 20_000] } else { vec![50, 96, 101, 110, 300, 5_000] };
         for d in depths {
-            let d = if d <= 300 { (d + r.below(7) as usize).max(1) } else { d };
-            let refused = if d >= 110 { Some(true) } else { None };
+            let d = if d == 101 { d } else if d <= 300 { (d + r.below(7) as usize).max(1) } else { d };
+            // the documented recursion limit is 100: every nesting construct of 101 or more levels is refused
+            // (measured on the unchanged tree: all variants refuse from 101, some accept 100)
+            let refused = if d >= 101 { Some(true) } else { None };
             let variants: Vec<(String, Vec<u8>)> = vec![
                 ("pbgen:Node".into(), nest_messages(1, d)),
                 ("pbgen:Node".into(), nest_messages(2, d)),
